@@ -283,6 +283,17 @@ impl Stack {{
     {{
 {render(bd, 2)}
     }}
+
+    //@ KF C17.trace.functions-only
+    // the property's wording: the trace lists exactly the FUNCTIONS AND METHODS active at the point of failure -- the same text also lists the
+    // `<if>` / `<else>` / `<while>` block frames above them (known finding D102)
+    #[verifier::loop_isolation(false)]
+    pub fn fmt_functions_only(&self, f: &mut Fmt) -> (r: Result<(), VErr>)
+        ensures r is Ok ==> forall|i: int| written(old(f)).len() <= i < written(final(f)).len() ==> match (#[trigger] written(final(f))[i]) {{
+            Piece::Cause(l) => !special(text_of(&l)), Piece::Caller(l) => !special(text_of(&l)), _ => true }},
+    {{
+{render(bd, 2)}
+    }}
 }}
 }} // verus!
 fn main() {{}}
@@ -294,6 +305,7 @@ fn main() {{}}
         Obl("C07.stack.register_local", ["C07", "C01"], fn="Stack::register_variable_local", desc="register_variable_local: binds the name in the innermost frame to a fresh cell holding the value; nothing else changes"),
         Obl("C07.stack.store", ["C07", "C01", "C10"], fn="Stack::register_variable_flags", desc="register_variable_flags (store): an existing variable of the current function (block frames up to and including the function frame) is overwritten in its own shared cell -- frames untouched, no new cell; read-only / new-flag stores fail; otherwise a fresh local in the innermost frame"),
         Obl("C07.stack.find_name", ["C07", "C01"], fn="Stack::find_name", desc="find_name (load): the innermost frame of the whole call stack that has the name (and is not frame-exclusive); the returned handle is of the same cell"),
+        Obl("C17.trace.functions-only", ["C17"], kind="kf", finding="D102", fn="Display for Stack", desc="the trace lists only function and method frames -- known finding D102: it also lists the block frames (`<if>`, `<else>`, `<while>`) that are active above them"),
         Obl("C17.trace.display", ["C17", "C19"], fn="Display for Stack", desc="Display for Stack: `>>` innermost frame, then each remaining active frame exactly once, innermost first"),
     ]
     return gen, obls, log
